@@ -1,11 +1,13 @@
 SPECIFICATION Spec
 CONSTANTS
-  MaxLen = 4
+  MaxLen = 3
   Inputs = {"A", "B", "X"}
   EmitOn = FALSE
+  StepOrders = "any"
 INVARIANT InvStandalone
 INVARIANT InvAbort
 INVARIANT InvComplete
 INVARIANT InvPrefix
 INVARIANT InvHydRepeat
+INVARIANT InvOnlyRunRows
 CHECK_DEADLOCK FALSE
